@@ -84,14 +84,14 @@ type Val struct {
 // Resp is one answer from a box.
 type Resp struct {
 	Op         string `json:"op"`
-	Err        string `json:"err,omitempty"`         // harness-level failure (box could not do what was asked)
-	ApplyErr   string `json:"apply_err,omitempty"`   // Tendermint refused the block / validator updates
-	Height     int64  `json:"height"`                // Tendermint state height after the command
-	AppHash    string `json:"app_hash,omitempty"`    // Tendermint state app hash, hex
-	AppHeight  int64  `json:"app_height,omitempty"`  // application's own committed version
+	Err        string `json:"err,omitempty"`          // harness-level failure (box could not do what was asked)
+	ApplyErr   string `json:"apply_err,omitempty"`    // Tendermint refused the block / validator updates
+	Height     int64  `json:"height"`                 // Tendermint state height after the command
+	AppHash    string `json:"app_hash,omitempty"`     // Tendermint state app hash, hex
+	AppHeight  int64  `json:"app_height,omitempty"`   // application's own committed version
 	AppAppHash string `json:"app_app_hash,omitempty"` // application's own committed hash, hex
-	BlockTime  int64  `json:"block_time,omitempty"`  // unix ms of last block
-	Proposer   string `json:"proposer,omitempty"`    // hex address of the proposer of the block just applied
+	BlockTime  int64  `json:"block_time,omitempty"`   // unix ms of last block
+	Proposer   string `json:"proposer,omitempty"`     // hex address of the proposer of the block just applied
 	Calls      []Call `json:"calls,omitempty"`
 	Dump       []KV   `json:"dump,omitempty"`
 	DumpFull   bool   `json:"dump_full,omitempty"`
